@@ -39,8 +39,8 @@ ENCODED = [
     "tdgl.device.device:Device.terminal_info",
 ]
 BOUNDS = {
-    "quick": dict(devices=["bar2", "tee3"], terminals="2..3", acceptance_terminals=[2, 3]),
-    "thorough": dict(devices=["bar2", "tee3", "cross4"], terminals="2..4", acceptance_terminals=[2, 3, 4]),
+    "quick": dict(devices=["bar2", "tee3", "bar2:remeshed"], terminals="2..3", acceptance_terminals=[2, 3]),
+    "thorough": dict(devices=["bar2", "tee3", "cross4", "bar2:remeshed", "tee3:remeshed"], terminals="2..4", acceptance_terminals=[2, 3, 4]),
 }
 ASSUMPTIONS = [
     "one step from an arbitrary state: supercurrent an arbitrary edge field (the identity is linear in it), psi' arbitrary (opaque psi-kernel), A(t_n), A(t_n-1) arbitrary, cell areas and dual edge lengths arbitrary positive reals, edge lengths symbolic within 10% of the geometric ones, terminal membership concrete (real device meshes)",
@@ -122,12 +122,19 @@ def body(H, case):
     bidx = [int(b) for b in em.boundary_edge_indices]
     density = {b: 0.0 for b in bidx}
     tinfo = {t.name: t for t in solver.terminal_info}
-    for nm in names:
-        t = tinfo[nm]
-        L = K.total(K.at(em.edge_lengths, int(e)) for e in t.edge_indices) * dev.coherence_length.magnitude
-        for e in t.edge_indices:
+    # independent of Device.terminal_info(): a boundary edge belongs to a terminal iff its centre
+    # lies in the terminal polygon (of the *current* mesh)
+    xi0 = dev.coherence_length.magnitude
+    centres = np.asarray(xi0 * em.centers)[bidx]
+    for term in dev.terminals:
+        nm = term.name
+        inside = np.atleast_1d(term.contains_points(centres))
+        t_edges = [b for b, ins in zip(bidx, inside) if ins]
+        L = K.total(K.at(em.edge_lengths, int(e)) for e in t_edges) * xi0
+        for e in t_edges:
             density[int(e)] = (J_scale * currents[nm]) / L
-        H.prove_eq(f"terminal {nm}: length = covered boundary length", t.length, L)
+        H.prove(f"terminal {nm}: boundary edges = edges whose centre lies in the terminal polygon", sorted(int(e) for e in tinfo[nm].edge_indices) == sorted(t_edges))
+        H.prove_eq(f"terminal {nm}: length = covered boundary length", tinfo[nm].length, L)
     mub = solver.mu_boundary
     H.prove_conj_eq("every boundary edge: flux = terminal current density (zero on insulating edges)", [(K.at(mub, k), density[b]) for k, b in enumerate(bidx)])
     inj = [0.0] * ns
